@@ -73,7 +73,16 @@ impl Module for Tx {
             self.busy.lock().unwrap().push((SimTime::now().as_nanos(), ch.is_busy(), ch.transmission_finish_time().as_nanos()));
         }
         for &(id, len) in &self.ticks[k].1 {
-            send(Message::default().kind(DATA).id(id).with_content(Tok::new(len)), "out");
+            let msg = Message::default().kind(DATA).id(id).with_content(Tok::new(len));
+            if let Some(ch) = current().gate("out", 0).and_then(|g| g.channel()) {
+                // what the metrics promise for this message is what the reference charges
+                let m = ch.metrics();
+                let busy = m.calculate_busy(&msg).as_nanos();
+                let exp = tx_ns(msg.length(), m.bitrate as u64);
+                assert!(busy + 1 >= exp && busy <= exp + 1, "calculate_busy = {busy}ns for {} bytes at {} bit/s, expected {exp}ns", msg.length(), m.bitrate);
+                assert_eq!(msg.length(), 64 + len, "length of a message with a {len}-byte body");
+            }
+            send(msg, "out");
         }
         if long {
             // ... and something with an earlier deadline after it
